@@ -303,8 +303,8 @@ fn threshold_sweep(rec: &mut Rec, _ctx: &Ctx, t: u64, rng: &mut ChaCha20Rng) {
 
 pub fn run(ctx: &Ctx) -> Rec {
   let mut rec = par_run(ctx, "wasm", ctx.n(5000, 200_000), |rec, i, rng| case(rec, ctx, i, rng));
-  // every threshold 1..=T once: 700 in the quick tier, 1400 in the thorough tier
-  let tmax: u64 = ctx.extra.get("tmax").and_then(|v| v.parse().ok()).unwrap_or((((if ctx.thorough() { 1400 } else { 700 }) as f64) * ctx.scale.min(1.0)).ceil() as u64);
+  // every threshold 1..=T once: 700 in the quick tier, 1024 in the thorough tier
+  let tmax: u64 = ctx.extra.get("tmax").and_then(|v| v.parse().ok()).unwrap_or((((if ctx.thorough() { 1024 } else { 700 }) as f64) * ctx.scale.min(1.0)).ceil() as u64);
   rec.merge(par_run(ctx, "threshold-sweep", tmax, |rec, i, rng| threshold_sweep(rec, ctx, tmax - 1 - i, rng)));
   rec.note("threshold_sweep_max", json!(tmax));
   rec
